@@ -69,6 +69,15 @@ func (e *Engine) evalUnderModel(st *State, c *Term) (bool, bool) {
 	if st.model == nil {
 		return false, false
 	}
+	// only trust the witness when it assigns every variable of c (missing variables would read as 0)
+	for _, v := range e.varsOf(c) {
+		if len(v) > 3 && v[:3] == "uf:" {
+			continue
+		}
+		if _, ok := st.model.vals[v]; !ok {
+			return false, false
+		}
+	}
 	return st.model.EvalBool(c), true
 }
 
@@ -91,7 +100,17 @@ func (e *Engine) feasible(st *State, c *Term) (bool, *Env, bool) {
 	}
 	used := make([]bool, len(st.pc))
 	var as []*Term
-	for changed := true; changed; {
+	if st.model == nil {
+		// no witness to extend: solve the whole path condition so the model is complete
+		for i, p := range st.pc {
+			used[i] = true
+			as = append(as, p)
+			for _, v := range e.varsOf(p) {
+				rel[v] = true
+			}
+		}
+	}
+	for changed := st.model != nil; changed; {
 		changed = false
 		for i, p := range st.pc {
 			if used[i] {
